@@ -73,6 +73,11 @@ pub const SYMBOLS: &[(&str, Sym)] = &[
     ("recursive-enum-two-self", Sym::Item("#[typeshare]\n#[serde(tag = \"t\", content = \"c\")]\npub enum EdgeExpr { Add { lhs: Box<EdgeExpr>, rhs: Box<EdgeExpr> }, Neg(Box<EdgeExpr>), Lit(u32) }\n")),
     ("mutual-recursion-twice", Sym::Item("#[typeshare]\npub struct EdgeMa { pub b1: Option<Box<EdgeMb>>, pub b2: Vec<EdgeMb> }\n#[typeshare]\npub struct EdgeMb { pub a1: Option<Box<EdgeMa>>, pub a2: Vec<EdgeMa> }\n")),
     ("recursive-via-alias", Sym::Item("#[typeshare]\npub type EdgeKids = Vec<EdgeNode>;\n#[typeshare]\npub struct EdgeNode { pub kids: EdgeKids, pub more: EdgeKids }\n")),
+    // alias / newtype chains that lead back to themselves, carried by a variant (a chain walk must still terminate)
+    ("newtype-of-itself-in-variant", Sym::Item("#[typeshare]\npub struct EdgeHandle(Box<EdgeHandle>);\n#[typeshare]\n#[serde(tag = \"t\", content = \"c\")]\npub enum EdgeHolder { One(EdgeHandle), Many(Vec<EdgeHandle>), Nothing }\n")),
+    ("newtype-pair-cycle-in-variant", Sym::Item("#[typeshare]\npub struct EdgeEven(Rc<EdgeOdd>);\n#[typeshare]\npub struct EdgeOdd(Arc<EdgeEven>);\n#[typeshare]\n#[serde(tag = \"t\", content = \"c\")]\npub enum EdgeParity { E(EdgeEven), O(EdgeOdd), Z }\n")),
+    ("alias-cycle-of-three-in-variant", Sym::Item("#[typeshare]\npub type EdgeA3 = Vec<EdgeB3>;\n#[typeshare]\npub type EdgeB3 = Option<EdgeC3>;\n#[typeshare]\npub struct EdgeC3(Box<EdgeA3>);\n#[typeshare]\n#[serde(tag = \"t\", content = \"c\")]\npub enum EdgeUse3 { A(EdgeA3), C(EdgeC3), N }\n")),
+    ("serialized-as-itself-in-variant", Sym::Item("#[typeshare(serialized_as = \"EdgeSelfAs\")]\npub struct EdgeSelfAs { pub x: u32 }\n#[typeshare]\n#[serde(tag = \"t\", content = \"c\")]\npub enum EdgeSelfUse { S(EdgeSelfAs), N }\n")),
     ("recursive-generic-self", Sym::Item("#[typeshare]\npub struct EdgeRg<T> { pub a: Option<Box<EdgeRg<T>>>, pub b: Vec<EdgeRg<T>>, pub t: T }\n")),
     ("diamond-into-cycle", Sym::Item("#[typeshare]\npub struct EdgeDa { pub b: EdgeDb, pub c: EdgeDc }\n#[typeshare]\npub struct EdgeDb { pub d: EdgeDd }\n#[typeshare]\npub struct EdgeDc { pub d: EdgeDd }\n#[typeshare]\npub struct EdgeDd { pub a1: Option<Box<EdgeDa>>, pub a2: Vec<EdgeDa> }\n")),
     ("map-of-self", Sym::Item("#[typeshare]\npub struct EdgeMs { pub m: HashMap<String, EdgeMs>, pub n: HashMap<String, Vec<EdgeMs>> }\n")),
